@@ -189,5 +189,28 @@ CHECKS["C17"] = dict(
        "ending with a literal affix); invalid parameters raise the documented exceptions (bounded sample).",
   note=LANGNOTE, technique="per-parameter complete language decision of the emitted pattern against a reference language, labelled bounded in the parameters",
   design_ref="DESIGN.md section 8 (C17)")
+
+CHECKS["C03"] = dict(
+  category="proof",
+  text="VCs over every function under contract (combinators, class forms, matching API): every implicit-exception exit (TypeError, "
+       "IndexError, KeyError, AttributeError, ValueError ...) is proved infeasible and every raise is of a documented library class "
+       "under exactly the documented condition, over the enumerated tagged-argument domain (wrong type, bool for int, None, float, "
+       "negative, inverted, bad name, too few arguments) and all integers; emitted texts parse whenever the operands' do. Complete "
+       "finite part: every meta constructor over its flag domain constructs, compiles and exports. Bounded parts (reported "
+       "separately): B1 validity/termination of type inference on emitted texts, B4 get_pattern round trip, B2 class text under hash "
+       "seeds. Two known findings (see known_findings.json).",
+  note=PROOF_NOTE + " Class-layer functions (classes.py) are covered by bounded stand-ins only; repetition bounds >= MAXREPEAT outside the model.",
+  technique="contract-based deductive verification (implicit-exception and raises-iff obligations, z3) + finite construction/compile sweep + labelled bounded stand-ins",
+  design_ref="DESIGN.md section 8 (C03)")
+CHECKS["C20"] = dict(
+  category="proof",
+  text="Frame scan over the whole package on every run (every attribute store, setattr, global, mutating call on a field, store into a "
+       "class-level table is enumerated and must be one of: the constructors' own fields, the compiled-pattern cache in compile()/"
+       "get_compiled_pattern()); frame clauses of the contracts proved by the VC driver (no method writes a field of self or of an "
+       "operand outside its frame); the cache invariant (C11) makes the cache unobservable; results are functions of operand fields "
+       "only. Random histories over shared operands are exercised by the bounded stand-in B20.",
+  note=PROOF_NOTE + " Equivalence of class TEXT across hash seeds is not claimed (sets are equal: B2/B3).",
+  technique="syntactic frame scan of the real source + frame obligations of the contract-based VCs (z3); bounded history stand-in",
+  design_ref="DESIGN.md section 8 (C20)")
 NOT_APPLICABLE = {p: PENDING for p in ["C%02d" % i for i in range(1, 21)] if p not in CHECKS}
 
